@@ -597,6 +597,44 @@ fn stage_two_partitions(ctx: &mut Ctx, pk: &mut Pk) {
     ctx.exhaustive("every 2-partition (cut at every offset 5..L-1) of each hello of the 60 B..few-KiB corpus, reader and packet analyzer");
 }
 
+/// Hellos whose own bytes look like TLS record headers (`16 03 0x ll ll`) at many offsets: a cut
+/// that lands on such bytes gives a continuation segment that *starts like a new record*.  It is
+/// still a continuation of the same record, so the exactly-once rule applies unchanged.
+fn stage_lookalike(ctx: &mut Ctx, pk: &mut Pk) {
+    for (i, total) in [140usize, 330, 282 + 5, 700].iter().enumerate() {
+        let mut r = ctx.rng(880 + i as u64);
+        let Some(mut h) = hello_of_size(&mut r, *total) else { continue };
+        let pat = [0x16u8, 0x03, 0x01 + (i as u8 % 4), 0x00, 0x40];
+        for k in 0..32 {
+            h.random[k] = pat[(k + i) % 5];
+        }
+        h.session_id = (0..32).map(|k| pat[(k + 2 + i) % 5]).collect();
+        let case = make_case(ctx, pk, "record-header-lookalike-bytes", &h);
+        let l = case.rec.len();
+        for c in 5..l {
+            episode(ctx, pk, "lookalike-2-partitions", &case, &case.rec, &[c], (true, true));
+        }
+        for c1 in 5..l.min(90) {
+            for c2 in (c1 + 1)..l.min(96) {
+                if (c1 + c2 + i) % 3 == 0 || !ctx.quick() {
+                    episode(ctx, pk, "lookalike-3-partitions", &case, &case.rec, &[c1, c2], (true, true));
+                }
+            }
+        }
+    }
+    // a hello whose handshake length itself ends in 0x16 so that `.. 16 03 03` spans the
+    // length / version fields (record length 282: bytes 5..11 = 01 00 01 16 03 03)
+    for total in [282usize + 5, 0x216 + 4 + 5, 0x316 + 4 + 5] {
+        let mut r = ctx.rng(890 + total as u64);
+        if let Some(h) = hello_of_size(&mut r, total) {
+            let case = make_case(ctx, pk, "handshake-length-ends-in-16", &h);
+            for c in 5..case.rec.len() {
+                episode(ctx, pk, "lookalike-2-partitions", &case, &case.rec, &[c], (true, true));
+            }
+        }
+    }
+}
+
 fn stage_random_partitions(ctx: &mut Ctx, pk: &mut Pk, case: &Case, r: &mut Rng, n: u64) {
     let l = case.rec.len();
     for _ in 0..n {
@@ -866,6 +904,7 @@ pub fn run(ctx: &mut Ctx) {
     ctx.stage("cpu_ms_after_3_partitions", json!((ctx.elapsed() * 1000.0) as u64));
     stage_two_partitions(ctx, &mut pk);
     ctx.stage("cpu_ms_after_2_partitions", json!((ctx.elapsed() * 1000.0) as u64));
+    stage_lookalike(ctx, &mut pk);
     stage_large(ctx, &mut pk);
     ctx.stage("cpu_ms_total", json!((ctx.elapsed() * 1000.0) as u64));
 }
